@@ -11,7 +11,7 @@ use crate::desc::{d, du, s, su, SupDesc};
 use crate::harness::{components_json, finish, Options};
 use crate::json::Json;
 use crate::rng::{hash_str, Fingerprint, Rng};
-use crate::stats::{run_parallel, Acc, Distinct, Report};
+use crate::stats::{run_parallel_then, Acc, Distinct, Report};
 
 /// A supply that implements only `provided_service`, so that the trait's default
 /// `service_time` runs.
@@ -601,52 +601,54 @@ pub fn run_c09(opt: &Options) -> i32 {
     };
     let n_cfg = configs.len() as u64;
     let root = opt.seed;
-    let mut acc = run_parallel(n_cfg + tables, opt.jobs, 60, |k, acc, note| {
+    let fin = |mut acc: Acc| -> i32 {
+        let wall = t0.elapsed().as_secs_f64();
+        let mut cov = Json::obj();
+        cov.set("evaluations", Json::Int(acc.counters.get("runs") as i128));
+        cov.set("distinct_nontrivial", Json::Int(nontrivial.count() as i128));
+        cov.set(
+            "rule",
+            Json::str(
+                "one evaluation = one simulated supply history (8 periods of a reservation server \
+                 placing its budget per period early / late / early-then-late / at random / \
+                 over-provisioned, or one static cyclic slot table); every window of every length up \
+                 to 4P is metered and every demand up to 3Q is drained from every instant; the minimum \
+                 over all histories of a configuration must equal provided_service, the maximum drain \
+                 time must equal service_time (specialised and trait default). distinct = distinct \
+                 (configuration, slot vector) fingerprints; non-trivial = budget < period",
+            ),
+        );
+        cov.set("distinct_histories", Json::Int(fps.count() as i128));
+        cov.set("configurations", Json::Int(n_cfg as i128));
+        cov.set("exhaustive_up_to_period", Json::Int(max_p as i128));
+        cov.set("simulated_time_ticks", Json::Int(acc.counters.get("sim_ticks") as i128));
+        cov.set(
+            "components",
+            components_json(
+                &["response_time_analysis::supply::{Periodic, Constrained, Dedicated}::{provided_service, service_time} and the SupplyBound default service_time (real)"],
+                &["reservation server with adversarial budget placement; static cyclic slot-table server (stubs, sim/src/supplysim.rs)"],
+            ),
+        );
+        let out = finish(
+            opt,
+            &mut acc,
+            wall,
+            cov,
+            &[
+                "the reservation stub guarantees at least Q slots within the first D slots of every period and nothing else",
+                "the minimum over placements is taken over the explored histories; the structured early-then-late placements attain the analytic worst case, random placements cover the placement space for small periods",
+            ],
+            &|r: &Report| (r.replay.clone(), r.summary.clone()),
+        );
+        out.exit_code
+    };
+    run_parallel_then(n_cfg + tables, opt.jobs, 60, |k, acc, note| {
         if k < n_cfg {
             supply_item(&sh, k, acc, note)
         } else {
             table_item(root, k - n_cfg, acc, &fps)
         }
-    });
-    let wall = t0.elapsed().as_secs_f64();
-    let mut cov = Json::obj();
-    cov.set("evaluations", Json::Int(acc.counters.get("runs") as i128));
-    cov.set("distinct_nontrivial", Json::Int(nontrivial.count() as i128));
-    cov.set(
-        "rule",
-        Json::str(
-            "one evaluation = one simulated supply history (8 periods of a reservation server \
-             placing its budget per period early / late / early-then-late / at random / \
-             over-provisioned, or one static cyclic slot table); every window of every length up \
-             to 4P is metered and every demand up to 3Q is drained from every instant; the minimum \
-             over all histories of a configuration must equal provided_service, the maximum drain \
-             time must equal service_time (specialised and trait default). distinct = distinct \
-             (configuration, slot vector) fingerprints; non-trivial = budget < period",
-        ),
-    );
-    cov.set("distinct_histories", Json::Int(fps.count() as i128));
-    cov.set("configurations", Json::Int(n_cfg as i128));
-    cov.set("exhaustive_up_to_period", Json::Int(max_p as i128));
-    cov.set("simulated_time_ticks", Json::Int(acc.counters.get("sim_ticks") as i128));
-    cov.set(
-        "components",
-        components_json(
-            &["response_time_analysis::supply::{Periodic, Constrained, Dedicated}::{provided_service, service_time} and the SupplyBound default service_time (real)"],
-            &["reservation server with adversarial budget placement; static cyclic slot-table server (stubs, sim/src/supplysim.rs)"],
-        ),
-    );
-    let out = finish(
-        opt,
-        &mut acc,
-        wall,
-        cov,
-        &[
-            "the reservation stub guarantees at least Q slots within the first D slots of every period and nothing else",
-            "the minimum over placements is taken over the explored histories; the structured early-then-late placements attain the analytic worst case, random placements cover the placement space for small periods",
-        ],
-        &|r: &Report| (r.replay.clone(), r.summary.clone()),
-    );
-    out.exit_code
+    }, &fin)
 }
 
 /// Replay of an `engine supply` file.
